@@ -275,7 +275,7 @@ def verify(contract, registry, tier='quick', mutate=None):
             ob['second'] = r['second']
         if r.get('disagreement'):
             ob['disagreement'] = True
-        if r['model'] is not None:
+        if r['result'] == 'sat':
             models[name] = (r['model'], A, hyps, goal, meta)
         rep['obligations'].append(ob)
     rep['seconds'] = round(time.time() - t0, 3)
